@@ -41,6 +41,13 @@ def _alarm(signum, frame):
     raise _Timeout()
 
 
+def _set_alarm(seconds: float) -> None:
+    """(Re)arm the per-job timer.  It repeats every 2 s after the first expiry: an exception raised
+    from the handler is lost when it lands in a context that ignores exceptions (C-level
+    isinstance checks, __del__), so it has to be raised again until it gets through."""
+    signal.setitimer(signal.ITIMER_REAL, seconds, 2.0 if seconds else 0.0)
+
+
 def raise_site(exc: BaseException) -> str:
     import lib
 
@@ -136,7 +143,24 @@ def rendered(diag, sources) -> tuple[bool, str, str]:
     return ok, "" if ok else "header does not show the title", text
 
 
-def lifecycle(defn, own_file, ranges, validate=True, mode="compile") -> tuple[list, dict]:
+def _validate_isolated(pkg) -> int | None:
+    """Run the validator in a forked child. Returns None if it finished (valid or not - the
+    caller then validates in-process for the message) or the signal that killed it."""
+    import os
+
+    pid = os.fork()
+    if pid == 0:
+        try:
+            _set_alarm(0)
+            gp.validate(pkg)
+        except BaseException:  # noqa: BLE001
+            pass
+        os._exit(0)
+    _, status = os.waitpid(pid, 0)
+    return os.WTERMSIG(status) if os.WIFSIGNALED(status) else None
+
+
+def lifecycle(defn, own_file, ranges, validate=True, mode="compile", isolate=False) -> tuple[list, dict]:
     from guppylang_internals.engine import DEF_STORE
     from guppylang_internals.error import GuppyError
 
@@ -152,6 +176,7 @@ def lifecycle(defn, own_file, ranges, validate=True, mode="compile") -> tuple[li
         return [ev(s, "ok") for s in pre] + [ev(st, "reject", located=loc, rendered=ren, cls=type(e).__name__,
                                                 site=(rwhy if not ren else ""))], info
     except _Timeout:
+        _set_alarm(0)
         return [ev("check", "timeout", cls="Timeout")], info
     except RecursionError as e:
         return [ev(stage_of(e), "exc", cls="RecursionError", site=raise_site(e))], info
@@ -165,9 +190,16 @@ def lifecycle(defn, own_file, ranges, validate=True, mode="compile") -> tuple[li
     events = [ev("parse", "ok"), ev("check", "ok"), ev("compile", "ok")]
     if validate:
         try:
+            if isolate:
+                sig = _validate_isolated(pkg)
+                if sig is not None:
+                    info.update(msg=f"hugr validator process killed by signal {sig} while loading the compiled package")
+                    events.append(ev("validate", "invalid", cls="HugrInvalid", site=f"validator died (signal {sig})"))
+                    return events, info
             gp.validate(pkg)
             events.append(ev("validate", "ok"))
         except _Timeout:
+            _set_alarm(0)
             events.append(ev("validate", "timeout", cls="Timeout"))
         except Exception as e:  # noqa: BLE001
             import runner
@@ -211,7 +243,7 @@ def run_program(job: dict) -> dict:
     old = signal.signal(signal.SIGALRM, _alarm)
     try:
         ex.EXPERIMENTAL_FEATURES_ENABLED = bool(job.get("experimental", False))
-        signal.alarm(job.get("timeout", 60))
+        _set_alarm(job.get("timeout", 60))
         try:
             with warnings.catch_warnings():
                 warnings.simplefilter("ignore")
@@ -225,24 +257,10 @@ def run_program(job: dict) -> dict:
         except BaseException as e:  # noqa: BLE001
             from guppylang_internals.error import GuppyError
 
-            site = raise_site(e)
-            if not site and not isinstance(e, GuppyError):
-                res["status"] = f"not_a_case:python:{type(e).__name__}"
-                return res
-            # the decorator itself (struct/function registration) failed inside /repo
-            res["status"] = "case"
-            if isinstance(e, GuppyError):
-                from guppylang_internals.engine import DEF_STORE
-
-                loc, why = located(e.error, "", [], DEF_STORE.sources)
-                ren, rwhy, text = rendered(e.error, DEF_STORE.sources)
-                res["traces"].append([ev("parse", "reject", located=loc, rendered=ren, cls=type(e).__name__)])
-                res["infos"].append({"where": why, "render": rwhy, "text": text[:1000]})
-            else:
-                res["traces"].append([ev("parse", "exc", cls=type(e).__name__, site=site)])
-                res["infos"].append({"msg": str(e)[:300], "tb": traceback.format_exc()[-2500:]})
-            res["names"].append("<module>")
-            res["modes"].append("compile")
+            # The module body (decorators, annotations, class bodies) is run by Python, before any
+            # checking or compiling: whatever it raises is outside the property (recorded for information).
+            res["status"] = f"not_a_case:python:{type(e).__name__}"
+            res["module_body"] = f"{type(e).__name__}@{raise_site(e)}"
             return res
         own_file = mod.__file__
         ranges = decorated_ranges(prelude + job["src"])
@@ -256,18 +274,22 @@ def run_program(job: dict) -> dict:
             ents = [e for e in ents if e[0] in job["entries"]]
         res["status"] = "case" if ents else "not_a_case:no_definitions"
         for name, d, mode in ents:
-            signal.alarm(job.get("timeout", 60))
-            events, info = lifecycle(d, own_file, ranges, validate=job.get("validate", True), mode=mode)
+            _set_alarm(job.get("timeout", 60))
+            events, info = lifecycle(d, own_file, ranges, validate=job.get("validate", True), mode=mode,
+                                     isolate=job.get("isolate", False))
             res["traces"].append(events)
             res["names"].append(name)
             res["modes"].append(mode)
             res["infos"].append(info)
         return res
+    except _Timeout:
+        res.update(status="not_a_case:timeout_in_harness", traces=[], names=[], infos=[], modes=[])
+        return res
     except BaseException as e:  # noqa: BLE001
         res.update(status="machinery", error=f"{type(e).__name__}: {e}", tb=traceback.format_exc()[-2000:])
         return res
     finally:
-        signal.alarm(0)
+        _set_alarm(0)
         signal.signal(signal.SIGALRM, old)
         ex.EXPERIMENTAL_FEATURES_ENABLED = prev
         if mod is not None:
@@ -317,7 +339,7 @@ def map_programs(jobs, procs: int = 16, chunk: int = 30):
         p.start()
         child.close()
         # in-process alarms bound every job; this outer deadline only catches a child stuck in native code
-        budget = 600 + sum(2 * jobs[i].get("timeout", 60) for i in idx)
+        budget = 300 + sum(jobs[i].get("timeout", 60) for i in idx) // 3 + 2 * max(jobs[i].get("timeout", 60) for i in idx)
         running[parent] = (p, idx, time.time() + budget)
 
     while todo or running:
@@ -335,8 +357,10 @@ def map_programs(jobs, procs: int = 16, chunk: int = 30):
                     results[i] = r
             except (EOFError, OSError):
                 p.join(5)
-                if len(idx) > 1:
-                    todo.extend([[i] for i in idx])  # find the culprit
+                if len(idx) > 1 or not jobs[idx[0]].get("isolate"):
+                    for i in idx:  # find the culprit; this time with the validator in its own process
+                        jobs[i] = dict(jobs[i], isolate=True)
+                        todo.append([i])
                 else:
                     code = p.exitcode
                     results[idx[0]] = {"id": jobs[idx[0]].get("id"), "status": "case", "names": ["<process>"], "modes": ["compile"],
